@@ -256,7 +256,8 @@ def reg_model(ctx):
       'and the built-in fillers (bodies creating the built-in handler closures) are called only from that once-closure — so built-ins can never later overwrite a user registration, also when the replacement is made before first use. '
       'WINSERT: each registry writer applies exactly one HashMap::insert (replace semantics = most recently registered wins) with key = the name parameter and value = the remaining parameters unchanged, in one map value '
       '(precedence, type, associativity and handler of an infix operator are one entry: a lookup can never pair a new handler with an old precedence); register_* hand their parameters through unchanged and in order; only register_* and the fillers call writers. '
-      'WDISP: the call-node evaluator consults the context first (Function entries only) and the global registry only on the None edge. RECV + STATICS: every invoked handler is the result of a lookup made in this evaluation; '
+      'WDISP: the call-node evaluator consults the context first (Function entries only) and the global registry only on the None edge. RECV + STATICS: every invoked handler is the result of a lookup made in this evaluation, made under the name stored in the node by a reader that hands that name to the registry unchanged; '
+      'HMUST: in the evaluator region of Unary / Binary / Postfix / Function nodes no success return avoids the invocation of the looked-up handler (no built-in fast path answers for a name that may have been re-registered); '
       'the static inventory is exactly {once flag, 4 registries, descriptor store}: no handler cache. '
       'PARSE-NO-EVAL: below parse_expression no arithmetic / sign change is applied to a number (an operator folded into a literal at parse time would never consult the registry). '
       'REG-SNAPSHOT: no struct of the crate is built from a registry read (no per-parser / per-context copy of the tables that later registrations would not reach).',
@@ -269,6 +270,7 @@ def c08(ctx):
     obs += r_registry.rule_winsert(rm)
     obs += r_order.em_fallback(ctx.cache, ctx.prog, em, lambda e: r_registry.rule_wdisp(rm, e))
     obs += r_order.em_fallback(ctx.cache, ctx.prog, em, lambda e: r_registry.rule_receivers(rm, e))
+    obs += r_order.em_fallback(ctx.cache, ctx.prog, em, lambda e: r_registry.rule_handler_must(rm, e))
     obs += r_misc.rule_statics(ctx)
     obs += r_lock.rule_notry(ctx.lm, classes=('REGISTRY', 'CONTEXT'))
     obs += r_parse.fallback(r_prec.rule_wgate, parse_roles(ctx))
@@ -583,7 +585,7 @@ def tok_roles(ctx):
       'TSPAN: at every construction of a token, both span fields are proved in-bounds char boundaries (SLICE domain) and the token text is the input slice over exactly the span\'s range — same values by provenance, or two reads of the scanner position with no advancing call in between; '
       'String: input[span.start + 1 .. span.end - 1] (the characters between the quotes, a sub-slice of the input, never a built string: no escape processing); Number: the value is parsed from input[span]; text handed in as a parameter must come, together with the start, from one scanner call whose text is input[start .. position]. '
       'SLICE: every slice bound is a char boundary (see C01). TWS: the whitespace predicate (role: the char predicate guarding the advance in the skipper that runs before the dispatching character is read), evaluated over a finite partition of char, accepts SP, TAB, CR, LF and nothing that is not Unicode white space. MUNCH: in the symbolic-operator scanner the run is extended iff the longer slice is a registered operator; no other condition cuts it short (longest registered operator). '
-      'WORDSCAN: the look-ahead that tests a word against the operator registry and the scanner that cuts the operator token consult character predicates with the same accepting set (sibling agreement over a finite partition of char). '
+      'WORDSCAN: the look-ahead that tests a word against the operator registry and the scanner that cuts the operator token consult character predicates with the same accepting set (sibling agreement over a finite partition of char); WORDSTOP: both stop at SP, TAB, CR, LF. '
       'CHARUNITS: a count-based step / counted loop over a character iterator is never given a byte quantity. '
       'BOOLWORD: a Function / Reference token is built for a scanned word only where the word compared unequal to true / True / false / False (the four words are booleans whatever follows them). '
       'NUMSTART: the number scanner is entered for digits only.',
@@ -601,7 +603,7 @@ def c10(ctx):
     obs += r_token.rule_tspan(sm, roles)
     obs += r_token.rule_tws(tok_roles(ctx))
     obs += r_token.rule_charunits(roles)
-    obs += r_token.rule_wordscan(roles, reg_model(ctx))
+    obs += r_token.rule_wordscan(roles, reg_model(ctx), sm)
     obs += r_token.rule_numstart(roles, tok_roles(ctx))
     obs += r_token.rule_boolword(roles)
     obs += r_prec.rule_munch(roles, tok_roles(ctx).tm)
@@ -612,7 +614,8 @@ def c10(ctx):
       'TWS: the whitespace set contains SP, TAB, CR, LF (read off the predicate\'s MIR over a finite partition of char). '
       'WWS: in the token scanner the whitespace skipper dominates the read of the dispatching character, and the function-vs-reference decision is taken by a predicate on the next *token* obtained through the token scanner on a copy (so `f (x)` and `f(x)` agree), not by a character-level peek. '
       'WPAREN: "(" is dispatched to a body that checks ")" and returns the inner expression node itself (the moved Ok payload of the inner parse: no wrapper node, no modified copy). '
-      'These are the three mutations the property\'s own rationale names.',
+      'WORDSTOP: the word-operator look-ahead and scanner stop at SP, TAB, CR and LF (read off their character predicates; not decided when the stop set is not a plain character predicate). '
+      'These are the mutations the property\'s own rationale names.',
       not_decided='the relation itself (AST equality over all re-layouts of all programs)',
       assumptions=COMMON_ASSUME)
 def c11(ctx):
@@ -631,6 +634,8 @@ def c11(ctx):
     # which operator token is cut must depend on the operator's own characters and the registry only — not on what
     # follows it (a test on the raw next character sees the layout)
     obs += r_prec.rule_munch(roles, tr.tm)
+    # a word operator ends at every whitespace character (a line break after `in` is layout, not part of the word)
+    obs += [o for o in r_token.rule_wordscan(roles, reg_model(ctx), slice_model(ctx)[0]) if o.rule == 'WORDSTOP']
     return obs, {}
 
 
